@@ -342,6 +342,7 @@ def run(ctx):
         stage_schema(ctx, pq, w)
         stage_struct_levels(ctx, pq, w)
         stage_refusal(ctx, pq, w)
+        stage_two_level(ctx, pq, w)
         stage_py_dict(ctx, pq)
         stage_fixtures(ctx, pq, w)
         stage_direct(ctx, pq, w)
@@ -440,6 +441,16 @@ def stage_schema(ctx, pq, w):
                 m = pq.call("sch", pth)
                 ctx.correspondence("sch_max_rep/sch_max_def/sch_is_required ~ schema.py SchemaHelper", {**case, "leaf": leaf["which"]},
                                    [int(x) for x in m], [r["max_rep"], r["max_def"], int(r["is_required"]), int(r["null"])])
+        if kind == "list":
+            # model of schema._is_list_like (Impl/CShapes.v) on the same facts: 3-name path, annotation, one child each, the two types
+            annot = 0 if "annotation" in what else 1
+            mid_t, leaf_t = types.get(2, 2), types.get(3, 1)
+            for r in res["ok"]:
+                ctx.correspondence("is_list_like ~ schema._is_list_like", case, int(pq.call("is_list_like", 3, annot, 1, 1, mid_t, leaf_t)),
+                                   int(r["is_list_like"]))
+                if len(types) >= 3:
+                    ctx.correspondence("refuses ~ max_repetition_level(path) > 1 (the NotImplementedError test of core._nested_levels)", case,
+                                       int(pq.call("refuses", [types[1], types[2], types[3]])), int(r["max_rep"] > 1))
         for r in res["ok"]:
             accepted = (kind == "list" and r["is_list_like"]) or (kind == "map" and r["is_map_like"])
             if accepted and must_reject:
@@ -640,6 +651,35 @@ def stage_refusal(ctx, pq, w):
         if not absent and not any(exc.startswith(x) for x in want):
             ctx.fail({"component": "refusal", "what": name}, {**case, "replay": {"kind": "file"}},
                      "a file the one-level assembly cannot represent was not refused: %s" % _trim(res))
+
+
+# ---- two-level legacy lists (LogicalTypes.md backward-compatibility rule 1): a LIST<required primitive> whose repeated field is
+# the element itself.  schema._is_list_like recognises only the three-level shape: the column is exposed, never read, and every
+# row comes back None (C15_two_level_list_refuted; open finding) - small confirmation stream, both outer repetition types ----
+
+def stage_two_level(ctx, pq, w):
+    for ro in (True, False):
+        for ptype in ("int64", "utf8"):
+            pl = pool(ptype)
+            col = dict(name="c", kind="list", row_opt=ro, elem_opt=False, ptype=ptype, legacy2=True)
+            rows = [[pl[1], pl[2]], None if ro else [], [], [pl[3]], [pl[0], pl[1], pl[2]]]
+            lay = dict(cuts=[2], version=1, dictionary=False, level_style="mixed", codec=None)
+            case = {"stage": "two-level-list", "cols": [col], "rgs": [{"rows": {"c": rows}, "layout": {"c/elem": lay}}], "replay": {"kind": "file"}}
+            ctx.case(case)
+            path = os.path.join(ctx.scratch, "two-level.parquet")
+            NF.write_file(path, [col], case["rgs"])
+            sres = w.call({"op": "schema", "cols": [col], "paths": [NF.leaf_columns(col)[0]["path"]]})
+            if "ok" in sres:
+                ctx.correspondence("is_list_like ~ schema._is_list_like", {"stage": "two-level-list", "row_opt": ro},
+                                   int(pq.call("is_list_like", 2, 1, 1, 0, 2, 2)), int(sres["ok"][0]["is_list_like"]))
+            res = isolated({"op": "read", "path": path, "cols": ["c"]})
+            want = {"c": expected_cells(col, rows)}
+            ctx.count("two_level_list.outcome", "rows" if res.get("ok") == want else
+                      ("all None" if isinstance(res.get("ok"), dict) and res["ok"].get("c") == [None] * len(rows) else _trim(res)[:60]))
+            if res.get("ok") != want:
+                ctx.fail({"component": "read nested column", "shape": "two-level-list", "row_opt": ro,
+                          "outcome": "all-none" if (isinstance(res.get("ok"), dict) and res["ok"].get("c") == [None] * len(rows)) else "other"},
+                         case, "a two-level LIST<required %s> (legal, older writers) reads as %s, rows written %s" % (ptype, _trim(res)[:300], json.dumps(rows)))
 
 
 # ---- D: nested files written by others (repository test data) --------------------------------
@@ -1319,6 +1359,26 @@ def stage_files(ctx, pq, w):
                     case = {"stage": "file-empty-pages", "cols": [col], "rgs": [{"rows": {"c": rows}, "layout": {"c/elem": lay}}]}
                     nfile += 1
                     check_file_case(ctx, pq, w, case, os.path.join(ctx.scratch, "f%d.parquet" % nfile), conf_budget)
+    # ---- fixed lattice: LIST / MAP below THREE struct levels, every optional/required combination, a null ancestor at every
+    # level, rows cut inside a row (v1) -----------------------------------------------------------------------------------
+    import itertools
+    for kind in ("list", "map"):
+        for opts in itertools.product([False, True], repeat=3):
+            if ctx.quick() and kind == "map" and sum(opts) == 1:
+                continue
+            sts = [{"name": n, "opt": o} for n, o in zip(("s", "t", "u"), opts)]
+            col = dict(name="s.t.u.c", kind=kind, row_opt=True, elem_opt=True, ptype="int64", key_ptype="utf8", structs=sts)
+            base = [[1, None, 2], None, [], [3]] if kind == "list" else [[["a", 1], ["b", None]], None, [], [["c", 3]]]
+            nso = sum(opts)
+            rows = list(base) + [NF.STRUCT_NULL if l == 0 else "<struct null %d>" % l for l in range(nso)] + [base[0]]
+            rg = {"rows": {col["name"]: rows}, "layout": {}}
+            for lf in NF.leaf_columns(col):
+                rep_l = NF.shred_leaf(NF.leaf_rows(col, lf, rows), lf)[0]
+                rg["layout"][col["name"] + "/" + lf["which"]] = dict(cuts=[1, len(rep_l) - 2], version=1, dictionary=bool(nso % 2),
+                                                                      level_style="mixed", codec=None)
+            case = {"stage": "file-deep-structs", "cols": [col], "rgs": [rg]}
+            nfile += 1
+            check_file_case(ctx, pq, w, case, os.path.join(ctx.scratch, "f%d.parquet" % nfile), conf_budget)
     # ---- random files ------------------------------------------------------------------------
     nrand = 400 if ctx.quick() else 15000
     for _ in range(nrand):
@@ -1341,8 +1401,13 @@ def stage_files(ctx, pq, w):
             if rng.random() < 0.25:
                 # the LIST / MAP group sits inside one or two struct groups; pandas column "s<k>[.t<k>].<name>"
                 col["structs"] = [{"name": "s%d" % ci, "opt": rng.random() < 0.6}]
-                if rng.random() < 0.35:
+                if rng.random() < 0.45:
                     col["structs"].append({"name": "t%d" % ci, "opt": rng.random() < 0.6})
+                    # three and four struct levels above the LIST / MAP group (C15_nested_levels_model is for ANY stack)
+                    if rng.random() < 0.45:
+                        col["structs"].append({"name": "u%d" % ci, "opt": rng.random() < 0.6})
+                        if rng.random() < 0.4:
+                            col["structs"].append({"name": "v%d" % ci, "opt": rng.random() < 0.6})
                 col["name"] = ".".join([x["name"] for x in col["structs"]] + [name])
             cols.append(col)
         if rng.random() < 0.35:
@@ -1379,8 +1444,10 @@ def stage_files(ctx, pq, w):
                     rows = gen_map_rows(rng, col["row_opt"], col["elem_opt"], nrows, maxlen, col["key_ptype"], col["ptype"])
                 nso = sum(1 for x in NF.col_structs(col) if x["opt"])
                 if nso:
-                    rows = [(NF.STRUCT_NULL if (nso == 1 or rng.random() < 0.5) else "<struct null 1>") if rng.random() < 0.15 else r
-                            for r in rows]
+                    def _snull():
+                        lvl = rng.randrange(nso)       # which optional ancestor is the null one (the ones above it are present)
+                        return NF.STRUCT_NULL if lvl == 0 else "<struct null %d>" % lvl
+                    rows = [_snull() if rng.random() < 0.15 else r for r in rows]
                 rg["rows"][col["name"]] = rows
                 for leaf in NF.leaf_columns(col):
                     lrows = NF.leaf_rows(col, leaf, rows)
